@@ -20,6 +20,7 @@ import RV.Base.Proto
     vcmp A B          -> gt=<b> lt=<b> le=<b|!> ge=<b|!> eq=<b|!> ne=<b|!>   the six operators on two literals WITH values
                          (`!` = raises TypeError); a valued literal A is  <lex> <dt|-> <lang|-> <val> <ill 0|1>  with
                          <val> = - (None) | s:<str> | b:<0|1> | n:<num>/<den> | pinf | ninf | nan | t:<wall µs>/<offset µs|-> | d:<ordinal>
+                                 | y:<bytes> | T:<µs of day>/<offset µs|-> (time) | D:<months>/<µs>/<0 timedelta|1 Duration>
     vsort A1 … An     -> the literals sorted with `<`, each printed as a term, separated by ` ; `
     msort X1 … Xn     -> a MIXED list sorted with `<`; X = a non-literal term (I|G|R|B|V <str>) or `W` + a valued literal
 -/
@@ -101,6 +102,21 @@ def val? (w : String) : Option (Option PyVal) :=
           pure (some (.dtm p (some q)))
       | _ => none
     | ["d", x] => x.toInt?.map (fun n => some (.date n))
+    | ["y", x] => (str? x).map (fun s => some (.bytes s))
+    | ["T", x] =>
+      match x.splitOn "/" with
+      | [p, q] => do
+        let p ← p.toInt?
+        if q = "-" then pure (some (.tim p none)) else do
+          let q ← q.toInt?
+          pure (some (.tim p (some q)))
+      | _ => none
+    | ["D", x] =>
+      match x.splitOn "/" with
+      | [m, u, k] => do
+        let m ← m.toInt?; let u ← u.toInt?
+        if k = "0" ∨ k = "1" then pure (some (.dur m u (k = "1"))) else none
+      | _ => none
     | _ => none
 
 def vlit? : List String → Option (VLit × List String)
